@@ -167,8 +167,8 @@ messages handed to callback `cb`; `onPublish c p` is what an inbound PUBLISH
 
 /-- The hypothesis `TI c.topics store` of the theorems below is met in every
 state reached from a fresh client by an admitted history (`Ok`, see
-`C12_refines_spec_partial`: no early acknowledgement, `good` valid filters,
-…): the trie is in step with an abstract store that names exactly the
+`C12_refines_spec_partial`: `good` valid filters, …; acknowledgements that
+arrive before the sending call has registered its request included): the trie is in step with an abstract store that names exactly the
 (callback, filter) pairs the reference client holds. -/
 theorem C20_trie_in_step (evs : List Ev) (hok : Ok {} evs = true) :
     ∃ store, TI (runState init evs).topics store ∧
